@@ -17,6 +17,7 @@ func init() {
 			"R11.3 the Content-Type header is set from the chosen media type on every body-carrying path, and for multipart from the boundary of the very multipart.Writer that writes into the pipe whose read end is the body; R11.4 every form field value and every file is visited exactly by construction of the loops (no iteration skips WriteField / CreatePart+Copy), with the part header built from escapeQuotes(field name) and escapeQuotes(filepath.Base(file name)), a declared ContentType() taking precedence over sniffing, and escapeQuotes always applying the backslash-and-quote replacer; R11.5 NamedReader forwards Read/Close/Name and wraps non-closers in io.NopCloser. " +
 			"R11.5 also: NamedReader always returns a wrapper allocated by this call. " +
 			"R11.3 also: whenever there is a payload the Content-Type header is set unconditionally, and a payload that is no reader always goes through the producer. " +
+			"R11.4 also: a file part's Content-Type is the declared or the sniffed type only, and no form value or file recorded on the request is removed again; R11.2 also: request.GetBody returns what the installed getBody function returns on every path. " +
 			"NOT decided: byte-for-byte equality of what net/http then sends.",
 		Run: runC11,
 	})
